@@ -53,6 +53,9 @@ pub enum Size {
     Cif4,
     /// standard source format 5
     Cif16,
+    /// standard custom picture format (PLUSPTYPE + CPFMT): width and height multiples of 4,
+    /// width 4..=2048, height 4..=1152
+    StdCustom(u16, u16),
 }
 
 impl Size {
@@ -67,6 +70,7 @@ impl Size {
             Size::S160x120 => (160, 120),
             Size::Cif4 => (704, 576),
             Size::Cif16 => (1408, 1152),
+            Size::StdCustom(w, h) => (w as usize, h as usize),
             Size::SorensonReserved => return None,
         })
     }
@@ -90,6 +94,19 @@ pub struct Header {
     pub freeze_release: bool,
     /// standard CPM/PSBI
     pub cpm: Option<u8>,
+    /// standard mode: how the header is written
+    pub plus: PlusForm,
+}
+
+/// Form of a standard-mode header (all optional modes off in every form).
+#[derive(Clone, Copy, Debug, PartialEq, Eq, Hash)]
+pub enum PlusForm {
+    /// baseline 13-bit PTYPE (fixed formats only)
+    Baseline,
+    /// PLUSPTYPE with UFEP = 001: OPPTYPE restates the format (custom formats carry CPFMT)
+    Full,
+    /// PLUSPTYPE with UFEP = 000: format and modes not restated (predicted pictures only)
+    Brief,
 }
 
 impl Header {
@@ -107,6 +124,7 @@ impl Header {
             doc_camera: false,
             freeze_release: false,
             cpm: None,
+            plus: PlusForm::Baseline,
         }
     }
     pub fn standard(ptype: PicType, size: Size, quant: u8) -> Header {
@@ -282,7 +300,7 @@ pub fn encode_header(h: &Header, w: &mut BitWriter) {
                 Size::Sqcif => w.put(4, 3),
                 Size::S320x240 => w.put(5, 3),
                 Size::S160x120 => w.put(6, 3),
-                Size::SorensonReserved | Size::Cif4 | Size::Cif16 => w.put(7, 3),
+                Size::SorensonReserved | Size::Cif4 | Size::Cif16 | Size::StdCustom(..) => w.put(7, 3),
             }
             w.put(
                 match h.ptype {
@@ -311,18 +329,55 @@ pub fn encode_header(h: &Header, w: &mut BitWriter) {
                 Size::Cif => 3,
                 Size::Cif4 => 4,
                 Size::Cif16 => 5,
-                _ => 6, // reserved (hostile only)
+                _ => 6, // baseline: reserved (hostile only); OPPTYPE: custom
             };
-            w.put(fmt, 3);
-            // bit 9: picture coding type, "0" INTRA, "1" INTER
-            w.put_bit(h.ptype != PicType::I);
-            w.put(0, 4); // bits 10-13: UMV, SAC, AP, PB all off
-            w.put(h.quant as u64, 5);
-            match h.cpm {
-                None => w.put_bit(false),
-                Some(psbi) => {
-                    w.put_bit(true);
-                    w.put(psbi as u64, 2);
+            let form = if matches!(h.size, Size::StdCustom(..)) && h.plus == PlusForm::Baseline { PlusForm::Full } else { h.plus };
+            match form {
+                PlusForm::Baseline => {
+                    w.put(fmt, 3);
+                    // bit 9: picture coding type, "0" INTRA, "1" INTER
+                    w.put_bit(h.ptype != PicType::I);
+                    w.put(0, 4); // bits 10-13: UMV, SAC, AP, PB all off
+                    w.put(h.quant as u64, 5);
+                    match h.cpm {
+                        None => w.put_bit(false),
+                        Some(psbi) => {
+                            w.put_bit(true);
+                            w.put(psbi as u64, 2);
+                        }
+                    }
+                }
+                PlusForm::Full | PlusForm::Brief => {
+                    w.put(7, 3); // extended PTYPE
+                    if form == PlusForm::Full {
+                        w.put(1, 3); // UFEP = 001
+                        w.put(fmt, 3); // OPPTYPE source format
+                        w.put(0, 1); // custom PCF off
+                        w.put(0, 10); // all optional modes off
+                        w.put(0b1000, 4);
+                    } else {
+                        w.put(0, 3); // UFEP = 000
+                    }
+                    // MPPTYPE: picture type, RPR, RRU, RTYPE, "001"
+                    w.put(if h.ptype == PicType::I { 0 } else { 1 }, 3);
+                    w.put(0, 3);
+                    w.put(0b001, 3);
+                    match h.cpm {
+                        None => w.put_bit(false),
+                        Some(psbi) => {
+                            w.put_bit(true);
+                            w.put(psbi as u64, 2);
+                        }
+                    }
+                    if form == PlusForm::Full {
+                        if let Size::StdCustom(cw, ch) = h.size {
+                            w.put(2, 4); // PAR 12:11
+                            w.put((cw as u64 / 4).saturating_sub(1), 9);
+                            w.put_bit(true);
+                            w.put(ch as u64 / 4, 9);
+                        }
+                    }
+                    w.put(h.quant as u64, 5);
                 }
             }
         }
